@@ -8,7 +8,7 @@ EXPLANATION = ('[English] The real BaseNumberParser.__get_int_value (English map
 ASSUMPTIONS = ['token shapes: per three-digit group u | teen | tens | tens ones | u hundred [and] (u | teen | tens | tens ones); groups units..trillion',
                'quick: every one-group shape and the two-group shapes of (thousand|million|trillion, units) and (million, thousand) with 5 patterns for the higher group; thorough: all two-group and selected three-group shapes', 'ordinals: the last word in its ordinal form (first..ninth, tenth..nineteenth, twentieth.., hundredth, thousandth, ...)',
                'Decimal(tmp_val) at the end is the exact proxy of harness/symdec.py']
-OUTSIDE = ['the extraction regexes (which spellings are extracted as one entity) and BaseMergedNumberExtractor', 'ordinals of the cultures other than English', 'Japanese numerals from 10^4 (万) upwards (recorded findings F34, F35)', 'spellings of the recorded findings F26-F29', 'zero, "a hundred", dozens, fractions, decimals ("point five")', 'CJK fractions, decimals, dozens and pairs']
+OUTSIDE = ['the extraction regexes (which spellings are extracted as one entity) and BaseMergedNumberExtractor', 'ordinals of Spanish, French, Portuguese, Chinese, Japanese (Italian, German, Dutch: one-word ordinals 1..9999 through the API only)', 'Japanese numerals from 10^4 (万) upwards (recorded findings F34, F35)', 'spellings of the recorded findings F26-F29', 'zero, "a hundred", dozens, fractions, decimals ("point five")', 'CJK fractions, decimals, dozens and pairs']
 N = 'recognizers_number.number.parsers:'
 
 
@@ -95,6 +95,14 @@ def obligations(tier):
     obs.append(Ob('O4.3-known-ja', 'fn', 'harness.C04cjk:validate', slices=[{'lang': 'japanese', 'kf': 1}], timeout=t, finding='F34', descr='region F34: bare 百 / 千'))
     obs.append(Ob('O4.3-witness-ja', 'fn', 'harness.C04cjk:ja_witness', slices=[{'w': 'F34'}], timeout=t, finding='F34', descr='API witness of F34 beyond 万'))
     obs.append(Ob('O4.3-witness-ja2', 'fn', 'harness.C04cjk:ja_witness', slices=[{'w': 'F35'}], timeout=t, finding='F35', descr='API witness of F35'))
+    hi = 999 if tier == 'quick' else 9999
+    obs.append(Ob('O4.5-ordinals-api', 'fn', 'harness.C04ord:ordinals_api', slices=[{'lang': l, 'hi': hi} for l in ('italian', 'german', 'dutch')], timeout=t,
+                  descr='ordinals of the compound-word cultures through the public ordinal model (small-scope enumeration through the API, every n of the range; not a solver verdict): the one-word ordinal an independent speller writes for n '
+                        'is one entity with value n',
+                  bounds='n = 1..%d per culture (Italian, German, Dutch); Italian x10th / x000th (own forms) not generated; regions of F59 (Italian) and F60 (German) searched separately' % hi,
+                  encodes=['recognizers_number.number.parsers:BaseNumberParser._get_text_number_regex', 'recognizers_number.number.parsers:BaseNumberParser._text_number_parse']))
+    obs.append(Ob('O4.5-ordinals-known-it', 'fn', 'harness.C04ord:ordinals_api', slices=[{'lang': 'italian', 'hi': hi, 'region': 'known'}], timeout=t, finding='F59', descr='region of finding F59 (Italian ordinals above 100 ending in -undicesimo / -tredicesimo / -centesimo)'))
+    obs.append(Ob('O4.5-ordinals-known-de', 'fn', 'harness.C04ord:ordinals_api', slices=[{'lang': 'german', 'hi': hi, 'region': 'known'}], timeout=t, finding='F60', descr='region of finding F60 (German ordinals 40th..49th)'))
     return obs
 
 
